@@ -38,6 +38,7 @@ func ZZ_C16_ParseLeafs() {
 	case 1:
 		parseBitString(b)
 	}
+	vx.Assert("parser returned", true)
 }
 
 // Unmarshal into each primitive target type: error or value, never a panic.
@@ -78,9 +79,10 @@ func ZZ_C16_UnmarshalPrimitives() {
 		var w ObjectIdentifier
 		err := UnmarshalWithParams(b, &w, p)
 		if len(b) >= 2 {
-			_ = err
+			vx.Assert("OBJECT IDENTIFIER is reported as unsupported", err != nil)
 		}
 	}
+	vx.Assert("decoder returned", true)
 }
 
 // Malformed input must be reported as an error: empty and truncated input.
